@@ -7,6 +7,16 @@ BASELINE = "cd /repo && /venv/bin/python -m pytest -ra -q -p no:cacheprovider --
 
 # id -> (level category, engine, technique, level text, level note, design ref)
 CLAIMS = {
+    "C10": ("model_checking", "GenRun,MC_GenRun,Trace_GenRun",
+            "TLC model checking of GenRun.tla (stages x modes x fault points over an abstract file system); every behaviour replayed as a real generation under an audit hook with injected faults; TLA+ trace monitor",
+            "GenRun.tla is checked exhaustively (1248 behaviours: existing tree x force x core layout x cwd x post-processing x fault at each of 12 stages) and each behaviour is replayed with the real generator in a sentinel-seeded sandbox; Trace_GenRun.tla judges every recorded file-system operation and the before/after snapshot against Untouched / Contained / FaultsSurface",
+            "trusts TLC, sys.addaudithook + snapshots as complete observation of file-system effects, fault injection from the audit hook as model of 'failure part-way'; one document per run family",
+            "DESIGN.md section 4 C10"),
+    "C09": ("model_checking", "GenRun,MC_GenRun,Trace_GenRun,Trace_Det",
+            "GenRun.tla behaviours generate;generate(no force) over mutated existing trees replayed with real generations; history-of-runs determinism monitor (Trace_Det.tla) over hash seeds / warm process / roots / clock",
+            "the non-force behaviours of GenRun.tla over existing trees {equal, edited, file missing, emptied, non-.py changed, stale extra} x core layouts x post-processing are replayed with real generations and judged (Idem, Complete); the Det invariant is judged over 5 environments for ~50 feature documents",
+            "trusts TLC, sha256 tree snapshots; determinism environments are hash seed, process warmth, output root, shifted time.time()",
+            "DESIGN.md section 4 C09"),
     "C01": ("model_checking", "PyImport,Gen_Features,Trace_Load",
             "TLC explores every entry module of each emitted package's import graph (PyImport.tla, CPython partial-initialisation semantics); real compile + import in a generator-less interpreter; TLA+ monitor",
             "documents = every feature of a 62-feature catalogue alone and in pairs (TLC Gen_Features) x layouts x naming strategies; every emitted file is compiled and every module imported with the generator blocked; PyImport.tla (TLC) explores all entry modules and each predicted failure is confirmed in a fresh interpreter; Trace_Load.tla judges syntax / import / export / entry-order clauses",
